@@ -50,10 +50,9 @@ func expect(exchange string, etype int, p refkdc.Perturb, addrsRequested bool) s
 		}
 		return "reject"
 	case "caddr-added":
-		if addrsRequested {
-			return "reject"
-		}
-		return "either"
+		// "addresses inside the allowed bounds": a reply may list fewer addresses than were asked
+		// for, never one that was not asked for - also when none was asked for
+		return "reject"
 	case "caddr-dropped":
 		return "either"
 	case "authtime":
@@ -237,6 +236,7 @@ func run(tapeJSON json.RawMessage, res *core.Result) {
 	if tp.TCP {
 		cm.UDPLimit = 1
 	}
+	cm.Canonicalize, cm.Forwardable, cm.Proxiable, cm.RenewLifetime = tp.Canon, tp.Fwd, tp.Prox, tp.Renew
 	cfg, _, err := cm.Parse()
 	if err != nil {
 		res.Verdict, res.Harness = "harness-error", "krb5.conf: "+err.Error()
